@@ -47,6 +47,12 @@ pub fn failure_traits(cfg: &crate::gen::config::Cfg, input: &[u8]) -> Vec<String
             break;
         }
     }
+    if s.lines().any(|l| match (l.find('\t'), l.find(|c| c == ':' || c == '-' || c == '=')) {
+        (Some(t), Some(sep)) => t < sep,
+        _ => false,
+    }) {
+        v.push("tab-before-separator".to_string());
+    }
     if cfg.has("commit-regex") {
         v.push("commit-regex-option".to_string());
     }
